@@ -180,6 +180,12 @@ func (p *Profile) Generate(r *vk.Rand) (*Config, []string, []Op) {
 			if op.Ver == 5 && len(p.WillDelay) > 0 {
 				w.Delay = vk.Pick(r, p.WillDelay)
 			}
+			if w.Delay > 0 && w.Retain {
+				// delayed wills of different clients may fall due in the same housekeeping sweep, which publishes them in
+				// no particular order; retained ones on one topic would leave either as the retained message. Give every
+				// client id its own topic for them, so that what must be retained stays decidable
+				w.Topic = p.WillTopics[p.SlotIDs[slot]%len(p.WillTopics)]
+			}
 			op.Will = w
 		}
 		return op
